@@ -839,6 +839,10 @@ def extra_programs():
         mk("parquet_arrow_ne", lambda t: (lambda r: r[r.c != 1.0])(_parquet()), noindex=True),
         mk("parquet_arrow_ne_or", lambda t: (lambda r: r[(r.c != 1.0) | (r.b == 2)][["a", "c"]])(_parquet()), noindex=True),
         mk("parquet_arrow_gt_proj", lambda t: (lambda r: r[r.a > 3][["b"]])(_parquet()), noindex=True),
+        # a selection that can still be narrowed above an already LOWERED concat in the second simplify pass (D110)
+        mk("nested_inner_concat_filter", lambda t: (lambda z: z[z.a > 3])(programs._concat(
+            [L(t).merge(programs._concat([L(t).merge(R(t), on="b"), R(t)], join="inner"), on="b"), L(t)], join="inner")),
+           unordered=True, noindex=True),
         # two same-sized partition selections of ONE from_pandas source with unknown divisions (rows per partition 3,3,2):
         # sizes / lengths are answered from the reader's metadata for each selection separately
         mk("two_selection_sizes_unsorted", lambda t: (lambda d: d.partitions[0].a.size + d.partitions[2].a.size)(_unsorted_source())),
